@@ -148,9 +148,13 @@ impl Project for FileBackedProject {
     }
 
     fn semantic(&mut self) -> Result<(), Vec<Diagnostic>> {
-        let library_results: Vec<_> = self
-            .sources
-            .iter_mut()
+        // Analyze the files in a defined order (by file identifier) so that the
+        // result does not depend on the iteration order of the map, which changes
+        // from run to run.
+        let mut sources: Vec<_> = self.sources.iter_mut().collect();
+        sources.sort_by_key(|source| source.0.to_string());
+        let library_results: Vec<_> = sources
+            .into_iter()
             .map(|source| source.1.library())
             .collect();
 
